@@ -239,6 +239,15 @@ impl Rollback {
         //         can't be nil because there were some elements in the log that we removed.
         let new_end_live = earliest_record_id.prev().unwrap();
 
+        // If every retained delta has been rolled back, the record preceding the earliest one is
+        // not live either: it was discarded when the log reached its length limit and its segment
+        // may be gone already. The log is empty then, which is the nil live range.
+        let new_end_live = if in_memory.total_len() == 0 {
+            RecordId::nil()
+        } else {
+            new_end_live
+        };
+
         // Set pending truncate to the new end live.
         //
         // We cannot prune the log right away. If we did, and the process crashed, the log could
